@@ -1,3 +1,4 @@
+import Casm.Proofs.ModeMono
 import Casm.Model.Assemble
 /-!
 # C17 — asm blocks and user functions mean what their expansion means
@@ -14,6 +15,10 @@ About the resolver's evaluation environment `Casm.mkEnv` (model of `eval_fn`, `e
 * `asm_instr_appends` — each inner instruction contributes its chosen encoding, appended to
   the bits so far, and advances the position by its size: the block is the concatenation of
   its instructions' encodings at consecutive addresses.
+
+* `asm_loop_unfolds`, `asm_block_guesses_in_a_guessing_pass` — the passes of a block's own loop are
+  strict only when the enclosing pass is the last one (finding F39, repaired);
+  `asm_block_strict_result_is_the_guessing_result` — strictness only adds errors.
 
 The equality with the hand-inlined program is established by the search (implementation on
 both programs) and the model correspondence.
@@ -80,5 +85,41 @@ theorem asm_instr_appends (st : Static) (defs : Defs) (fuel : Nat) (ctx : RCtx) 
       asmOnce st defs fuel ctx rest ectx labels (cur + ((encs.headD (0, default)).2.size.getD 0))
         (result.concat (result.size.getD 0) 0 (encs.headD (0, default)).2 ((encs.headD (0, default)).2.size.getD 0) 0) unstable := by
   simp only [asmOnce, hs, hp, hm, Bool.false_eq_true, if_false, he]
+
+/-- the passes of a block's own loop, spelled out: pass `it` of `budget` runs in the context
+    `{ first := it == 1, last := ctx.last && it == budget }`, the confirming pass in `{ first := false, last := ctx.last }` -/
+theorem asm_loop_unfolds (st : Static) (defs : Defs) (fuel : Nat) (ctx : RCtx) (nodes : List AstNode) (ectx : ECtx)
+    (labels : List (String × Value)) (budget it : Nat) :
+    asmIterate st defs (fuel + 1) ctx nodes ectx labels budget it =
+      (let finish := fun (labels : List (String × Value)) =>
+        match asmOnce st defs fuel { ctx with first := false, last := ctx.last } nodes ectx labels ctx.cur (⟨0, some 0⟩) false with
+        | .error e => (.error e : Except String Value)
+        | .ok (v, unstable, _) =>
+          if !unstable then .ok v
+          else if ctx.canGuess then .ok .unknown
+          else .error "`asm` block did not converge"
+      if it > budget then finish labels
+      else
+        match asmOnce st defs fuel { ctx with first := it == 1, last := ctx.last && it == budget } nodes ectx labels ctx.cur (⟨0, some 0⟩) false with
+        | .error e => .error e
+        | .ok (_, unstable, labels) =>
+          if !unstable then finish labels
+          else asmIterate st defs fuel ctx nodes ectx labels budget (it + 1)) := by
+  rw [asmIterate]
+  rfl
+
+/-- **in a guessing pass of the enclosing resolution every pass of a block guesses too** (finding F39:
+    the code ran the last pass of the block's loop and the confirming pass strictly whatever the
+    enclosing pass, so a block naming a label declared further down failed in the first outer pass) -/
+theorem asm_block_guesses_in_a_guessing_pass (ctx : RCtx) (hl : ctx.last = false) (budget it : Nat) :
+    ({ ctx with first := it == 1, last := ctx.last && it == budget } : RCtx).canGuess = true ∧
+    ({ ctx with first := false, last := ctx.last } : RCtx).canGuess = true := by
+  simp [RCtx.canGuess, hl]
+
+/-- **what a block yields in the strict pass it yields in a guessing pass**: strictness only adds errors -/
+theorem asm_block_strict_result_is_the_guessing_result (st : Static) (defs : Defs) (fuel : Nat) (ctx : RCtx) (text : List Char)
+    (ectx : ECtx) (v : Value) (h : evalAsm st defs fuel ctx text ectx = .ok v) :
+    evalAsm st defs fuel (guessOf ctx) text ectx = .ok v :=
+  evalAsm_mono st defs fuel ctx text ectx v h
 
 end Casm.C17
